@@ -456,6 +456,17 @@ def host_main(case_path, out_path):
             except BaseException as e:  # noqa
                 box['exc'] = type(e).__name__
                 box['err'] = e          # kept, as a caller that logs or collects failures would (nothing is left to the cycle collector)
+                # a failed construction registers nothing: Worker.active_children() must still work - asked by the thread that
+                # called the constructor, as a caller would - and list no half-built worker
+                try:
+                    from pyworkers.worker import Worker
+                    for ch_ in list(Worker.active_children()):
+                        ch_.is_alive()
+                        if ch_.pid == me:
+                            box['registry'] = 'broken'
+                except BaseException as e2:  # noqa
+                    box['registry'] = 'broken'
+                    box['registry_exc'] = type(e2).__name__
             box['dur'] = round(time.monotonic() - t0, 3)
         th = threading.Thread(target=ctor, daemon=True, name='ctor')
         th.start()
@@ -473,6 +484,9 @@ def host_main(case_path, out_path):
                 st, ppid = _pstate(pid)
                 parent = srv.pid if srv is not None else me
                 id_ok = 'T' if (pid != me and (pid in seen) and (st in 'ZXx' or ppid == parent or ppid == 1)) else 'F'
+        registry = box.get('registry', 'ok')
+        if 'registry_exc' in box:
+            res['registry_exc'] = box['registry_exc']
         data_open = 0
         if kind == 'remote' and outcome == 'raised' and mode != 'none':
             data_open = _data_socks_open(tuple(host) if not step.startswith('rinfo') else tuple(srv.addr))   # right after the constructor raised
@@ -500,7 +514,7 @@ def host_main(case_path, out_path):
         else:
             leftover = 0
         stop.set()
-        res.update(outcome=outcome, exc=box.get('exc', ''), dur=box.get('dur', -1.0), id_ok=id_ok, leftover=leftover, data_open=data_open,
+        res.update(outcome=outcome, exc=box.get('exc', ''), dur=box.get('dur', -1.0), id_ok=id_ok, leftover=leftover, data_open=data_open, registry=registry,
                    script_log=(script.log if script else tap.log if tap else []))
     except BaseException as e:  # noqa
         import traceback
@@ -626,7 +640,7 @@ def _record(case, out):
             'scn': {'kind': case['kind'], 'pers': case['pers'], 'step': case['step'], 'how': case['how'], 'server': case['server'],
                     'off': -1 if case.get('off') is None else case['off'], 'variant': case.get('variant', '')},
             'obs': {'outcome': out['outcome'], 'exc': out.get('exc', ''), 'id_ok': out['id_ok'], 'leftover': max(0, out['leftover']),
-                    'data_open': out.get('data_open', 0)}}
+                    'data_open': out.get('data_open', 0), 'registry': out.get('registry', 'ok')}}
 
 
 def _mkey(s):
@@ -663,7 +677,11 @@ def run(prop, tier, replay=None):
     if r.error:
         raise MachineryError('ClientStart.tla violates its own properties: %s\n%s' % (r.error, '\n'.join(r.trace[:60])))
     wit = {}
-    for nm, fx in (('pre_all', 'FixNone'), ('pre_report', 'FixNoReport'), ('pre_srvclose', 'FixNoSrv')):
+    rw = tlc.run('ClientStartMC', cfg_text=_mc_cfg(Fix='FixNoSentinel'), name='pre_sentinel', must_complete=False, workers=2)
+    if rw.error != 'invariant:Inv_NotRegistered':
+        raise MachineryError('the variant without the sentinel fix (the tree as it is) is not rejected by NotRegistered: %r' % rw.error)
+    ev.add_tlc('pre-fix variant FixNoSentinel: ProcessWorker._start returns normally when the child dies first (must be rejected)', rw, role='vacuity')
+    for nm, fx in (('pre_all', 'FixOnlySentinel'), ('pre_report', 'FixNoReport'), ('pre_srvclose', 'FixNoSrv')):
         rw = tlc.run('ClientStartMC', cfg_text=_mc_cfg(Fix=fx), name=nm, must_complete=False, workers=2)
         if rw.error != 'temporal':
             raise MachineryError('pre-fix variant %s is not rejected by liveness: %r' % (fx, rw.error))
@@ -692,7 +710,7 @@ def run(prop, tier, replay=None):
     ev.cov['witnesses'] = wit
     allowed = {}
     for label, fx in (('pre', 'FixNone'), ('fix', 'FixAll'), ('cli', 'FixNoSrv'), ('srv', 'FixNoReport')):
-        cfg = _mc_cfg(Fix=fx).replace('PROPERTY Live_Returns', 'INVARIANT PathDump').replace('SPECIFICATION Spec', 'INIT Init\nNEXT Next')
+        cfg = _mc_cfg(Fix=fx).replace('PROPERTY Live_Returns', 'INVARIANT PathDump').replace('SPECIFICATION Spec', 'INIT Init\nNEXT Next').replace('INVARIANT Inv_NotRegistered\n', '').replace('INVARIANT Inv_DataClosed\n', '')
         rp_ = tlc.run('ClientStartMC', cfg_text=cfg, workers=1, name='paths_' + label)
         if rp_.error:
             raise MachineryError('path dump failed: ' + rp_.error)
@@ -733,12 +751,12 @@ def run(prop, tier, replay=None):
         sig = 'C20|%s|kind=%s|pers=%s|server=%s|before=%s|fault=%s:%s%s|%s' % (
             clause, case['kind'], case['pers'], case['server'], before, case['step'], case['how'],
             ('/' + case['variant']) if case.get('variant') else '',
-            out['outcome'] if clause == 'C20_Returns' else 'id_ok=%s,leftover=%d' % (out['id_ok'], out['leftover']))
+            out['outcome'] if clause == 'C20_Returns' else 'registry=%s' % out.get('registry') if clause == 'C20_NotRegistered' else 'id_ok=%s,leftover=%d' % (out['id_ok'], out['leftover']))
         what = ('%s fails: %s%s constructor, %s server, fault %s:%s%s%s -> %s%s after %ss (script: %s)%s'
                 % (clause, 'persistent ' if case['pers'] == 'T' else '', case['kind'], case['server'], case['step'], case['how'],
                    (' at byte %s' % case['off']) if case.get('off') is not None else '', (' [' + case['variant'] + ']') if case.get('variant') else '',
                    out['outcome'], (' ' + out['exc']) if out.get('exc') else '', out.get('dur'), ','.join(map(str, out.get('script_log') or [])),
-                   ((' leftover: %s' % out.get('leftover_cmds')) if out.get('leftover', 0) > 0 else '') + ((' data sockets still open in the client: %d' % out['data_open']) if out.get('data_open') else '')))
+                   ((' leftover: %s' % out.get('leftover_cmds')) if out.get('leftover', 0) > 0 else '') + ((' data sockets still open in the client: %d' % out['data_open']) if out.get('data_open') else '') + ((' Worker.active_children() afterwards: broken (%s)' % out.get('registry_exc', 'lists a half-built worker')) if out.get('registry') == 'broken' else '')))
         violations.append(Violation('C20', sig, what, {k: case[k] for k in ('kind', 'pers', 'step', 'how', 'server', 'off', 'variant')}))
 
     # ---- 4. conformance: which model explains every outcome ----
